@@ -18,7 +18,7 @@ ASSUMPTIONS = ["svmc/refhex.py and svmc/refuuid.py are correct (self-tested)", "
 BOUNDS = {"quick": "generate full product; merge histories depth<=2, 2^8 aligned subsets x 3 area addresses",
           "thorough": "generate full product; merge histories depth<=3, 2^8 subsets each + every single faulty placement"}
 
-NAMES = ["nordicsemi.com", "", "a", "nRF54H20_sample_root", "zażółć.example", "x" * 300]
+NAMES = ["nordicsemi.com", "", "a", "nRF54H20_sample_root", "zażółć.example", "xY" * 150, "MixedCase.Example"]
 ADDRS = [0, 0x10, 0xFFD0, 0x0E1FE000, 0x00FFFFF0, 2**32 - 48]
 SIZES = [48, 49, 64, 256, 4096]
 SIGV = [None, "update", "update-and-boot"]
